@@ -63,6 +63,101 @@ fn run_stream(input: &Value, salt: u64) -> Value {
 }
 
 
+/// ClientFlow cases: zone transfers with a consumer that calls
+/// get_response() only when the case says so (a task fed with permits), a
+/// peer that sends bursts, requests dropped mid-stream.
+fn run_flow(input: &Value, salt: u64) -> Value {
+    use domain::net::client::request::{Error, GetResponseMulti, SendRequestMulti};
+    use std::sync::Arc;
+    use tokio::sync::Semaphore;
+    let cfg = &input["cfg"];
+    let nreq = num(cfg, "nreq") as usize;
+    let ops = input["ops"].as_array().cloned().unwrap_or_default();
+    let wchunk = if salt % 2 == 0 { 5 } else { 65536 };
+    let rt = runtime();
+    rt.block_on(async move {
+        let (mut s, _eff) = match StreamSession::with_conf(&cfg["conf"], wchunk) {
+            Some(x) => x,
+            None => return json!({"bad_conf": cfg["conf"]}),
+        };
+        s.settle().await;
+        let mut consumers: std::collections::HashMap<u64, (Arc<Semaphore>, tokio::task::JoinHandle<()>)> =
+            Default::default();
+        let mut obs: Vec<Value> = vec![];
+        for op in ops.iter() {
+            let r = num(op, "r");
+            match op["op"].as_str().unwrap_or("") {
+                "submit" if num(op, "q") >= 500 => {
+                    s.nreq = s.nreq.max(r as usize);
+                    let conn = match &s.conn {
+                        Some(c) => c,
+                        None => return json!({"bad_op": op}),
+                    };
+                    let mut req: Box<dyn GetResponseMulti + Send + Sync> =
+                        SendRequestMulti::send_request(conn, build_request_multi(num(op, "q")));
+                    let sem = Arc::new(Semaphore::new(1));
+                    let (sem2, comp) = (sem.clone(), s.comp.clone());
+                    let fut = async move {
+                        loop {
+                            match sem2.acquire().await {
+                                Ok(p) => p.forget(),
+                                Err(_) => break,
+                            }
+                            let res = req.get_response().await;
+                            let (o, stop) = match &res {
+                                Ok(Some(m)) => (json!({"ok": abstract_msg(m.as_slice())}), false),
+                                Ok(None) => (json!({"eof": true}), true),
+                                Err(Error::WrongReplyForQuery) => (json!({"err": true}), false),
+                                Err(_) => (json!({"err": true}), true),
+                            };
+                            comp.lock().unwrap().push((r, o, String::new()));
+                            if stop {
+                                break;
+                            }
+                        }
+                    };
+                    let h = tokio::spawn(counted(fut, &s.act));
+                    consumers.insert(r, (sem, h));
+                }
+                "submit" => s.submit(r, num(op, "q")),
+                "xfr" => {
+                    // one write: the whole burst is on the wire at once
+                    let mut all = vec![];
+                    for f in op["fs"].as_array().cloned().unwrap_or_default() {
+                        let m = build_peer_msg(&f);
+                        all.extend_from_slice(&(m.len() as u16).to_be_bytes());
+                        all.extend_from_slice(&m);
+                    }
+                    s.peer.push(&all);
+                }
+                "answer" => s.peer_msg(&op["f"], false).await,
+                "consume" => match consumers.get(&r) {
+                    Some((sem, _)) => sem.add_permits(num(op, "n") as usize),
+                    None => return json!({"bad_op": op}),
+                },
+                "dropreq" => match consumers.remove(&r) {
+                    Some((_, h)) => {
+                        h.abort();
+                        let _ = h.await;
+                    }
+                    None => return json!({"bad_op": op}),
+                },
+                _ => return json!({"bad_op": op}),
+            }
+            s.settle().await;
+            let p = s.projection(nreq);
+            let mut o = json!({"out": p["out"], "got": p["done"], "closed": p["closed"]});
+            for k in ["hang", "clock_drift"] {
+                if p.get(k).is_some() {
+                    o[k] = p[k].clone();
+                }
+            }
+            obs.push(o);
+        }
+        Value::Array(obs)
+    })
+}
+
 /// One attempt at a dgram case; None = the library drew the same random ID
 /// for two attempts, so symbolic IDs cannot be mapped (the case is re-run).
 fn try_dgram(input: &Value) -> Option<Value> {
@@ -540,6 +635,7 @@ fn main() {
         n += 1;
         match input["kind"].as_str() {
             Some("stream") => run_stream(input, n),
+            Some("flow") => run_flow(input, n),
             Some("dgram") => run_dgram(input),
             Some("dgpar") => run_dgpar(input),
             Some("multi") => run_multi(input),
